@@ -16,4 +16,20 @@ let () = register "c04.toks" (fun line ->
     obs ^ "\tCOVERED\t" ^ String.concat "," ((if cov then "gcov1" else "gcov0") :: cls)
   | _ -> "BAD-CASE")
 
+(* names leg: the parser's AST with every Loc; the spec (every name-bearing node's range covers exactly its identifier)
+   is read off the observable by checks/c04.py; classes = the refuted file classes of C04_tok_range_exact *)
+let () = register "c04.names" (fun line ->
+  match split_ws line with
+  | h :: c :: _ ->
+    let bs = bytes_of_hex h in
+    let cps = if c = "-" then [] else List.map (fun x -> n_of_int (int_of_string x)) (String.split_on_char ',' c) in
+    if utf8_of cps <> bs then "BAD-CASE" else
+    let obs = parse_model bs in
+    if String.length obs >= 4 && String.sub obs 0 4 = "SKIP" then obs ^ "\t-\t-" else
+    let cls = List.filter_map (fun (nm, b) -> if b then Some nm else None)
+        [ ("escape", cls_escape cps); ("long_bracket", cls_long_bracket cps); ("astral", cls_astral cps);
+          ("two_byte", cls_two_byte cps); ("lfcr", cls_lfcr cps); ("bom", cls_bom cps) ] in
+    obs ^ "\tNAMESCOVERED\t" ^ (match cls with [] -> "-" | l -> String.concat "," l)
+  | _ -> "BAD-CASE")
+
 let () = main ()
